@@ -232,12 +232,18 @@ func (m *NoLockAfterFailedFleet) AfterScan(ctx *h.ScanCtx) []h.Violation {
 
 func C18Scenarios(tier string) []*h.Scenario {
 	var out []*h.Scenario
-	for _, ready := range []int{1, -1} {
+	for _, ready := range []int{1, -1, -2} {
 		g := StdGroup("g1")
 		g.Opts.AWS.LaunchTemplateID, g.Opts.AWS.LaunchTemplateVersion = "lt-1", "1"
 		g.Opts.MaxNodes = 60
 		g.ASG.Max = 60
 		rd := ready
+		// -2: never ready, and the group still holds a tainted node that is untainted before the fleet
+		// request is made (a failed fleet request takes no cool-down lock there either)
+		withTainted := ready == -2
+		if withTainted {
+			rd = -1
+		}
 		s := &h.Scenario{Name: fmt.Sprintf("c18.controller.ready%d", ready), Groups: []h.GroupSpec{g}, Slots: 5, Quantum: Q, MaxEventsPerSlot: 1,
 			FaultOps:     map[string]bool{sim.OpAttach: true, sim.OpCreateFleet: true, sim.OpStatus: true, sim.OpTermIns: true},
 			FleetTimeout: 4500 * time.Millisecond,
@@ -247,6 +253,9 @@ func C18Scenarios(tier string) []*h.Scenario {
 				for i := 0; i < 2; i++ {
 					n := hh.W.AddNode(a, sim.NodeOpt{Age: time.Duration(10+i) * Q})
 					hh.W.AddPod(podOn(g, n.Name, 1000))
+				}
+				if withTainted {
+					hh.W.AddNode(a, sim.NodeOpt{Age: 30 * Q, TaintAge: dp(0)})
 				}
 				// 3000 % utilisation: the need is 84 nodes, clamped to the 58 of headroom -> three attach batches
 				hh.W.AddPod(podOn(g, "", 58000))
